@@ -4,6 +4,7 @@ package main
 
 import (
 	"context"
+	"encoding/binary"
 	"fmt"
 	"math/rand/v2"
 	"net"
@@ -19,6 +20,7 @@ import (
 
 	"github.com/containerd/nri/pkg/adaptation"
 	"github.com/containerd/nri/pkg/api"
+	"github.com/containerd/nri/pkg/net/multiplex"
 )
 
 const (
@@ -75,7 +77,7 @@ func c17Cases(tier string, g *rand.Rand) [][]c17Peer {
 		}
 		one(c17Peer{Name: "p", Idx: fmt.Sprintf("%02d", g.IntN(100)), Mask: m})
 	}
-	stalls := []string{"no-register", "no-configure-answer", "drop-after-connect", "drop-after-register", "drop-in-configure", "unread-flood-register"}
+	stalls := []string{"no-register", "no-configure-answer", "drop-after-connect", "drop-after-register", "drop-in-configure", "unread-flood-register", "no-register-empty-update", "no-register-flood-raw"}
 	for _, s := range stalls {
 		one(c17Peer{Name: "p", Idx: "30", Mask: 0, Stall: s})
 	}
@@ -169,6 +171,46 @@ func runC17Case(dir string, peers []c17Peer, tag string, res *ev.Result) {
 				r.raw = rig.NewRawPlugin(spec.Name, spec.Idx, spec.Mask)
 				r.raw.Attach(c)
 			}
+		case "no-register-empty-update":
+			// never registers, but sends one unsolicited update with an empty list
+			rp := rig.NewRawPlugin(spec.Name, spec.Idx, spec.Mask)
+			r.raw = rp
+			if err := rp.Dial(rt.Sock, nil); err != nil {
+				res.Note("%s: dial: %v", tag, err)
+				return
+			}
+			wg.Add(1)
+			go func() {
+				defer wg.Done()
+				ctx, cancel := context.WithTimeout(context.Background(), 3*time.Second)
+				defer cancel()
+				rp.Runtime.UpdateContainers(ctx, &api.UpdateContainersRequest{})
+			}()
+		case "no-register-flood-raw":
+			// never registers, stops reading, and writes thousands of protocol-violating request frames onto the
+			// runtime-service connection: the error replies pile up until NRI's receive queue for it overflows
+			rp := rig.NewRawPlugin(spec.Name, spec.Idx, spec.Mask)
+			r.raw = rp
+			var cut *rig.CutConn
+			if err := rp.Dial(rt.Sock, func(c net.Conn) net.Conn { cut = rig.NewCutConn(c); return cut }); err != nil {
+				res.Note("%s: dial: %v", tag, err)
+				return
+			}
+			cut.StallReads()
+			if c, err := rp.Mux.Open(multiplex.RuntimeServiceConn); err == nil {
+				go func() {
+					fr := make([]byte, 10)
+					for i := 0; i < 20000; i++ {
+						binary.BigEndian.PutUint32(fr[0:], 0)
+						binary.BigEndian.PutUint32(fr[4:], uint32(2*i+2))
+						fr[8] = 1
+						if _, err := c.Write(fr); err != nil {
+							return
+						}
+					}
+				}()
+			}
+			time.Sleep(200 * time.Millisecond)
 		case "unread-flood-register":
 			// the peer stops reading its socket, fills it with large replies to its own update requests, and
 			// only then registers: the runtime cannot even send its configuration request
